@@ -93,10 +93,13 @@ def check_C06(tier, seed):
 def check_C15(tier, seed):
     v = Verdict("C15", tier, seed)
     exe = build_driver("asan")
-    for c in cfgs(tier, ["comments_quick.cfg"], ["comments_thorough.cfg"]):
+    for c in cfgs(tier, ["comments_quick.cfg", "comments_long.cfg"], ["comments_thorough.cfg"]):
         res = tlc_parse(v, c, INV_LINES)
+        if "long" in c:
+            # annotations next to long quoted values: only the runs with annotation support on matter here
+            res.behaviours = [b for b in res.behaviours if b["pcfg"]["comments"]]
         parsecheck.replay(v, exe, res, aspects={"tree", "diag"}, seed=seed,
-                          renderings=("varied",), tag="C15")
+                          renderings=("varied",) if "long" not in c else ("canonical",), tag="C15")
     v.cov["exhaustive"] = True
     return v.finish(rule="every token sequence up to the configured length with comment tokens (empty and non-empty, "
                          "all three styles chosen by the renderer) at every token boundary, annotation support on and off")
@@ -236,7 +239,7 @@ def check_C03(tier, seed):
     v = Verdict("C03", tier, seed)
     exe = build_driver("asan")
     run_lex(v, exe, cfgs(tier, ["lex_dq_quick.cfg", "lex_dqesc_quick.cfg", "lex_sq_quick.cfg", "lex_comment_quick.cfg",
-                                "lex_dqenv_quick.cfg", "lex_env_quick.cfg"],
+                                "lex_dqenv_quick.cfg", "lex_env_quick.cfg", "lex_slash_quick.cfg"],
                          ["lex_dq_thorough.cfg", "lex_sq_thorough.cfg"]), seed, "C03")
     v.cov["exhaustive"] = True
     return v.finish(rule="every byte string up to the length bound over the class representatives of each start condition "
@@ -247,9 +250,13 @@ def check_C03(tier, seed):
 def check_C02(tier, seed):
     v = Verdict("C02", tier, seed)
     exe = build_driver("asan")
-    run_lex(v, exe, cfgs(tier, ["lex_initial_quick.cfg", "lex_words_quick.cfg", "lex_dqesc_quick.cfg"], ["lex_initial_thorough.cfg"]), seed, "C02")
+    run_lex(v, exe, cfgs(tier, ["lex_initial_quick.cfg", "lex_words_quick.cfg", "lex_dqesc_quick.cfg", "lex_slash_quick.cfg"], ["lex_initial_thorough.cfg"]), seed, "C02")
     res = tlc_parse(v, "C02_parse_quick.cfg", INV_PARSE[2:])
     parsecheck.replay(v, exe, res, aspects={"balance"}, seed=seed, renderings=("canonical",), tag="C02")
+    # the same kind of input on a context that has a search path (sections share the path list)
+    res = tlc_parse(v, "C07_titles.cfg", INV_PARSE[2:])
+    parsecheck.replay(v, exe, res, aspects={"balance"}, seed=seed, renderings=("canonical",), tag="C02sp",
+                      extra_before=["fs dir $R/d1", "searchpath c1 $R/d1"], sigprefix="parse+searchpath")
     stress.run(v, exe, tier, tag="C02")
     v.cov["exhaustive"] = True
     return v.finish(rule="(a) every byte string up to the length bound over the class representatives of the INITIAL start condition and "
